@@ -63,6 +63,12 @@ theorem tieA_comparisons : Generated.C19.gateComparisons =
 
 theorem tieA_caught_exceptions : Generated.C19.gateCaughtExceptions = Cache.caughtExceptions := by decide
 
+/-- `hash_file_content` reads the file in a loop (every block enters the digest): the model's
+"hash = the whole content" is what the code computes. Behavioural counterpart: the hash probe of
+py/props/c19.py (sizes around k * blocksize ± 1) and the big-file histories. -/
+theorem tieA_hash_reads_every_block :
+    Generated.C19.hashReadInLoop = true ∧ 0 < Generated.C19.hashBlockSize := by decide
+
 /-- The hashed-option tuple is built from exactly these `config` expressions. -/
 theorem tieA_hashed_sources : Generated.C19.hashedArgumentSources =
     ["config.LITERAL_VALUE_PREFIX", "config.arguments.follow_imports.value",
